@@ -42,6 +42,7 @@ type GenReport struct {
 	SyncBracketed  int      `json:"blocking_statements_bracketed"`
 	SyncUnmodelled []string `json:"blocking_operations_not_modelled"`
 	NumCPURewrites int      `json:"numcpu_rewrites"`
+	SelectsPolled  int      `json:"selects_polled_in_tape_order"`
 	Uncontrolled   []string `json:"uncontrolled"`
 	PerIterLoopVar bool     `json:"per_iteration_loopvar"`
 	TemplateProbe  bool     `json:"template_probe"`
@@ -181,6 +182,7 @@ type genWalker struct {
 
 	needHook bool
 	perFunc  map[string]int
+	selN     int
 }
 
 func (w *genWalker) off(p token.Pos) int { return w.pkg.Fset.Position(p).Offset }
